@@ -117,7 +117,7 @@ func runC04(seed int64, n int, dir string, tier string) *Report {
 			if len(m.Data) < 3000 {
 				in["input"] = string(m.Data)
 			}
-			rep.NoteCase(name+m.Path+m.Fault, po.kind == "doc", in)
+			rep.NoteInput(name+m.Path+m.Fault, po.kind == "doc", in)
 			if po.kind == "doc" {
 				// the model's unserializer on what the third-party decoder returns for this mutant
 				seamSeen++
